@@ -96,6 +96,8 @@ aggregate = _c11.aggregate
 
 
 def shrink_candidates(case):
+    if case.get("kind") == "blackjax":
+        return []  # the scenario is already small; the generic shrinkers assume the numpy model
     scn = scenario_of(case)
     base = {k: v for k, v in case.items() if k not in ("scenario",)}
     out = [{**base, "scenario": scn, "max_states": 1, "routes": [r]} for r in ROUTES if case.get("routes") != [r]]
